@@ -13,6 +13,9 @@ for d in sorted(glob.glob(os.path.join(ROOT, "seeded", "*", "meta.json"))):
     m = json.load(open(d))
     sid = m["seed"]
     e = extra.get(sid, {})
+    if e and (m.get("change") != e.get("change") or m.get("needs") != e.get("needs") or m.get("history") != e.get("history")):
+        m["change"], m["needs"], m["history"] = e.get("change"), e.get("needs"), e.get("history")
+        json.dump(m, open(d, "w"), indent=1)
     files = ", ".join(m.get("touched_packages", []))
     ran = ", ".join("%s=%s" % (c, {1: "VIOLATION", 0: "quiet", 2: "inconclusive", -1: "?"}.get(v["exit"], v["exit"])) for c, v in m.get("steps", {}).get("checks", {}).items())
     esc = lambda x: str(x).replace("|", "\\|")
